@@ -46,12 +46,12 @@ ASSUMPTIONS = ['struct.pack/unpack and BytesIO.read semantics of CPython as tran
                'timeouts, shutdown and the socket loops are not part of this property']
 
 MANIFEST = {
-    'text': ('Theorems C15_request_wf, C15_request_total, C15_produce_resp, C15_metadata_resp, C15_metadata_resp_distinct, '
-             'C15_routing, C15_routing_request hold for every topic, partition, acks value, payload list, correlation id, client id, '
+    'text': ('Theorems C15_request_wf, C15_request_total, C15_crc_continuation, C15_produce_resp, C15_metadata_resp, '
+             'C15_metadata_resp_distinct, C15_routing, C15_routing_request, C15_fuel_irrelevant hold for every topic, partition, acks value, payload list, correlation id, client id, '
              'every encodable produce/metadata response and every history of sends and replies (no size or length bound) of the '
              'Gallina transcription of the Kafka v0 writer/readers and correlation-id table, against an independently written strict '
              'v0 request parser and reference response encoders; the transcription, the parser, the encoders and the bitwise CRC-32 '
-             'are compared with the real code, zlib.crc32 and an independent Python parser/encoder on ~1.7k (quick) / ~17k (thorough) '
+             'are compared with the real code, zlib.crc32 and an independent Python parser/encoder on ~1.4k (quick) / ~9k (thorough) '
              'generated inputs per run.'),
     'note': ('Trusted: Coq kernel; the correspondence harness (harness/props/c15.py) and its sampling; struct/BytesIO semantics as '
              'modelled in Model/Bytes.v; zlib.crc32; the reading of the Kafka 0.8 protocol guide. Topics/payloads are bytes. '
@@ -510,7 +510,7 @@ def gen_route(r):
   ops = []
   nsend = 0
   tags_used = []
-  for _ in range(r.choice([2, 4, 6, 10, 16, 24])):
+  for _ in range(r.choice([2, 4, 6, 8, 12, 16])):
     k = r.random()
     if k < 0.5 or nsend == 0:
       ck = r.random()
@@ -587,7 +587,8 @@ def gen_cases(tier, seed):
     out.append({'kind': 'header', 'tag': 5, 'mtype': 0, 'dlen': 38, 'cid': cid})
   # 50 payloads of mixed sizes (0..2 KiB); full-size lists (50 x 2 KiB) inside Coq in the thorough tier;
   # larger ones for the Python parser only
-  out.append(dict(base, payloads=[{'rnd': 40 + j, 'n': [0, 1, 2048, 13, 100, 700, 2047, 5, 64, 256][j % 10]} for j in range(50)], tag=6))
+  out.append(dict(base, payloads=[{'rnd': 40 + j, 'n': 2048 if j == 7 else 2047 if j == 23 else [0, 1, 2, 13, 100, 300, 5, 64, 256, 31][j % 10]}
+                                  for j in range(50)], tag=6))
   for i in range(0 if q else 8):
     out.append(dict(base, payloads=[{'rnd': 100 + 50 * i + j, 'n': 2048} for j in range(50)], tag=7 + i))
   for i in range(2 if q else 12):
@@ -668,14 +669,14 @@ def gen_cases(tier, seed):
   ]})
 
   # ---- random stream --------------------------------------------------------------------------------
-  n = 1350 if q else 16000
+  n = 1150 if q else 9000
   for i in range(n):
     r = C.case_rng(seed, PID, i)
     k = r.random()
     if k < 0.34:
-      budget = 1200
+      budget = 700
       if i % 60 == 3:
-        budget = 8000 if q else 24000
+        budget = 6000 if q else 24000
       out.append(gen_produce(r, budget))
     elif k < 0.42:
       out.append({'kind': 'header', 'tag': r32(r, 0.1), 'mtype': r16(r, 0.1), 'dlen': r.choice([0, 1, 38, r.randrange(0, 2 ** 31), r32(r, 0.2)]),
